@@ -12,6 +12,7 @@ From P2 Require Import Base.Prelude Heap.ListHeap Heap.ListHeapProofs Heap.FuncS
 From P2 Require Import Sem.Num Sem.Syntax Sem.Ops Sem.Lib Sem.Ref Sem.Gen Sem.Sim Heap.FuncStackProofs.
 From P2 Require Lib.Stream Lib.Iterate Lib.IterateProofs.
 From P2 Require Import Heap.MapHeap Heap.MapHeapProofs Heap.MapState Heap.MapStateProofs.
+From P2 Require Import Heap.MixState Heap.MixStateProofs.
 
 (* an evaluation is a sequence of heap steps whose outcome is determined by (F, args, j) and the CONTENT of the
    constants - never by their representation (itemsPresent / len / cap / which array): started in ANY heap h2
@@ -69,6 +70,28 @@ Proof. exact map_eval_history_independent_lemma. Qed.
 Theorem C10_map_generated_history_independent : forall p h ops args, mgenerate p = Some h ->
   meval_on (fold_left mstep ops h) (mh_maps h) args (mp_body p) = meval_on h (mh_maps h) args (mp_body p).
 Proof. exact map_generated_history_independent_lemma. Qed.
+
+(* programs MIXING lists and maps, map literals built per evaluation (Heap/MixState.v: list heap and map heap in ONE
+   state; a map entry holds an integer or the handle of a shared list object, so a list constant is reachable through
+   the constant table, through constant maps and through the maps an evaluation builds).  All histories, no bound:
+   evaluations of this and other functions of the generator (failing ones, list results dropped / half consumed),
+   further Generate calls, any other list operations and any other map operations on the two heaps *)
+Theorem C10_mixed_eval_history_independent : forall cp g hist k args j,
+  xgstate_ok g -> k < length (xg_funcs g) ->
+  xeval_after cp g hist k args j = xeval_after cp g [] k args j.
+Proof. exact mixed_eval_history_independent_lemma. Qed.
+
+(* every state a generator can reach satisfies the hypothesis of the theorem above *)
+Theorem C10_mixed_reachable_states_ok : forall cp hist, xgstate_ok (xrun_hist cp new_xgenerator hist).
+Proof. exact mixed_reachable_ok_lemma. Qed.
+
+(* the outcome is determined by (function, arguments, consumption), the ENTRIES its constant maps show and the CONTENT
+   of its list constants - never by the representation of either heap: started in any list heap reachable from h0 by
+   good steps and any map heap reachable from mh0 by map operations it gives what the function denotes on (h0, mh0) *)
+Theorem C10_mixed_outcome_depends_on_content_only : forall cp h0 mh0 F args j h mh,
+  inv h0 -> mwf mh0 -> xfunc_ok h0 mh0 F -> good h0 h -> mgood mh0 mh ->
+  snd (xeval_fn cp h mh F args j) = xfunc_denotes h0 mh0 F args j.
+Proof. exact mixed_outcome_content_only_lemma. Qed.
 
 (* traversal state is per ITERATION, not per list value (Lib/Stream.v pipelines: map, accept, combine, number,
    iir, compact, skip, top over numbers / literals / +; consumers first, single, size, present, indexWhere, ~,
@@ -140,6 +163,37 @@ Example C10_failing_materialisation_nonvacuous :
   eval_after cp (run_event cp new_generator (EGen q)) [] 0 [5]%Z 9 = FuncState.OErr.
 Proof. vm_compute. repeat split; reflexivity. Qed.
 
+(* non-vacuity and discrimination for the mixed fragment:
+   `let c0=[1,2]; let c1=c0.append(3); let m0={l:c1,n:1}; let x0={a:a0,l:c1}.l; let x1=m0.put("z",a1).l;
+    x0.append(a0).size()*10+x1.append(a1)[3]`
+   c1 has spare capacity (len 3, cap 6 under this policy) and is reached through a map literal built by the evaluation (x0) and through
+   a wrapper of the constant map m0 (x1): the first evaluation appends twice to the ONE shared object (the first append
+   writes into the shared array and caps the constant: cap 3), builds a ListMap in the map heap - and every evaluation
+   with the arguments (5, 7) gives 47, the specification's value; reading the list field of a map that has none fails,
+   before and after any history *)
+Example C10_mixed_nonvacuous :
+  let cp := mkCaps (fun n => 2 * n) (fun n => 2 * n) in
+  let kl := [108%N] in let kn := [110%N] in let ka := [97%N] in let kz := [122%N] in
+  let p := mkXP [DL (LLit [1; 2]%Z); DL (LAppend (LConst 0) (ZS (SLit 3)))]
+                [XMLit [(kl, XVList 1); (kn, XVInt (SLit 1))]]
+                [XBList (XMLit [(ka, XVInt (SArg 0)); (kl, XVList 1)]) kl; XBList (XMPut (XMConst 0) kz (XVInt (SArg 1))) kl]
+                (BZ (ZAdd (ZMul (ZSize (LAppend (LConst 2) (ZS (SArg 0)))) (ZS (SLit 10)))
+                          (ZIndex (LAppend (LConst 3) (ZS (SArg 1))) (ZS (SLit 3))))) in
+  let q := mkXP [DL (LLit [4]%Z)] [XMLit [(kn, XVInt (SLit 1))]] [XBList (XMPut (XMConst 0) ka (XVInt (SArg 0))) kl] (BZ (ZSize (LConst 1))) in
+  let g1 := xrun_event cp new_xgenerator (XEGen p) in
+  let g2 := xrun_event cp g1 (XEEval 0 [5; 7]%Z 0) in
+  xgstate_ok g1 /\ length (xg_funcs g1) = 1 /\
+  repr (xg_heap g1) 1 = (true, 3, 6) /\ repr (xg_heap g2) 1 = (true, 3, 3) /\
+  length (mh_arrs (xg_mh g1)) = 1 /\ length (mh_arrs (xg_mh g2)) = 2 /\
+  sp_xprog p [5; 7]%Z 0 = Some (FuncState.OInt 47) /\
+  xeval_after cp g1 [] 0 [5; 7]%Z 0 = FuncState.OInt 47 /\
+  xeval_after cp g1 [XEEval 0 [5; 7]%Z 0; XEEval 0 [1; 2]%Z 0; XEGen q; XEEval 1 [0]%Z 0; XEMapOps [MLit [(ka, 3%Z)]]] 0 [5; 7]%Z 0 = FuncState.OInt 47 /\
+  sp_xprog q [0]%Z 0 = Some FuncState.OErr /\
+  xeval_after cp g1 [XEGen q; XEEval 0 [5; 7]%Z 0] 1 [0]%Z 0 = FuncState.OErr.
+Proof.
+  cbv zeta. split; [apply (C10_mixed_reachable_states_ok _ [XEGen _])|]. vm_compute. repeat split; reflexivity.
+Qed.
+
 Print Assumptions C10_outcome_depends_on_content_only.
 Print Assumptions C10_eval_history_independent.
 Print Assumptions C10_reachable_states_ok.
@@ -152,3 +206,6 @@ Print Assumptions C10_iterate_twice_same.
 Print Assumptions C10_iterate_state_not_kept.
 Print Assumptions C10_iterate_shared_state_discriminates.
 Print Assumptions C10_stack_residue_irrelevant.
+Print Assumptions C10_mixed_eval_history_independent.
+Print Assumptions C10_mixed_reachable_states_ok.
+Print Assumptions C10_mixed_outcome_depends_on_content_only.
